@@ -86,6 +86,47 @@ Section ControlP.
       - rewrite <- iter_S_out. apply (IHn s0 (S k0)). intros k Hk. specialize (Hv (S k) ltac:(lia)). rewrite Nat.add_succ_r in Hv. exact Hv. }
     apply (G r s 0). intros k Hk. apply P3. lia.
   Qed.
+
+  (* ---- SimpleDirectedControlSampler::getBestControl ---- *)
+  Variable dist : St -> Z.
+  Notation cand_eval := (cand_eval St C stepf valid).
+  Notation best_loop := (best_loop St C stepf valid dist).
+  Notation best_control := (best_control St C stepf valid dist).
+  Definition evalof (s : St) (l : list (C * nat)) (r : C * nat * St) : Prop := exists cn, In cn l /\ r = cand_eval s cn.
+  Lemma best_loop_spec : forall s l best bd seen, evalof s seen best -> bd = dist (snd best) ->
+    (forall cn, In cn seen -> (bd <= dist (snd (cand_eval s cn)))%Z) ->
+    evalof s (seen ++ l) (best_loop s best bd l) /\
+    (forall cn, In cn (seen ++ l) -> (dist (snd (best_loop s best bd l)) <= dist (snd (cand_eval s cn)))%Z).
+  Proof.
+    intros s l. induction l as [|cn t IH]; intros best bd seen E Hb Hm; cbn [ControlModel.best_loop].
+    - rewrite app_nil_r. split; [exact E|]. intros cn Hc. rewrite <- Hb. apply Hm. exact Hc.
+    - replace (seen ++ cn :: t) with ((seen ++ [cn]) ++ t) by (rewrite <- app_assoc; reflexivity).
+      destruct (Z.ltb_spec (dist (snd (cand_eval s cn))) bd) as [L|L].
+      + apply IH; [exists cn; split; [apply in_or_app; right; left; reflexivity|reflexivity]|reflexivity|].
+        intros c0 Hc0. apply in_app_or in Hc0. destruct Hc0 as [Hc0|[<-|[]]]; [specialize (Hm c0 Hc0); lia|lia].
+      + apply IH; [destruct E as (c1 & H1 & ->); exists c1; split; [apply in_or_app; left; exact H1|reflexivity]|exact Hb|].
+        intros c0 Hc0. apply in_app_or in Hc0. destruct Hc0 as [Hc0|[<-|[]]]; [apply Hm; exact Hc0|exact L].
+  Qed.
+  (* the returned (control, steps, state) is one of the candidates propagated while valid: the state is what the control
+     reaches from the source in exactly the returned number of steps, every one of those steps is valid, the number does
+     not exceed the sampled count, and no candidate ended closer to the target *)
+  Theorem best_control_spec : forall s first rest,
+    let '(c, n, st) := best_control s first rest in
+    (exists m, In (c, m) (first :: rest) /\ n <= m /\ (n, st) = pwv s c m) /\
+    st = iter c n s /\ (forall k, 1 <= k <= n -> valid (iter c k s) = true) /\
+    (forall cn, In cn (first :: rest) -> (dist st <= dist (snd (pwv s (fst cn) (snd cn))))%Z).
+  Proof.
+    intros s first rest. unfold ControlModel.best_control.
+    destruct (best_loop_spec s rest (cand_eval s first) (dist (snd (cand_eval s first))) [first]) as (E & M).
+    - exists first. split; [left; reflexivity|reflexivity].
+    - reflexivity.
+    - intros cn [<-|[]]. lia.
+    - cbn [app] in E, M. destruct (best_loop s (cand_eval s first) (dist (snd (cand_eval s first))) rest) as [[c n] st].
+      destruct E as ([c1 m] & Hin & Er). unfold ControlModel.cand_eval in Er. cbn [fst snd] in Er. injection Er as -> En Est.
+      pose proof (pwv_spec s c1 m) as PS. destruct (pwv s c1 m) as [r res] eqn:Ep. cbn [fst snd] in En, Est. subst n st. destruct PS as (P1 & P2 & P3 & _).
+      split; [exists m; split; [exact Hin|split; [exact P1|symmetry; exact Ep]]|]. split; [exact P2|]. split; [exact P3|].
+      intros cn Hcn. specialize (M cn Hcn). unfold ControlModel.cand_eval in M. cbn [snd] in M. exact M.
+  Qed.
 End ControlP.
 
 (* meaning of the admission rule *)
